@@ -15,6 +15,8 @@ use crate::schedx::{CaseInfo, Judgement};
 
 #[derive(Clone, Debug)]
 pub struct Case {
+    /// writer 0 also stores a 20 MiB value in its increment transaction (several growth steps at once)
+    pub big_value: bool,
     /// writer 0 first runs a commit whose final sync fails (EIO after the header reached the file:
     /// the error is reported, the state is visible, the next writer has to rebuild the free list)
     pub fsync_fault: bool,
@@ -31,22 +33,23 @@ pub struct Case {
 pub fn cases(tier: Tier) -> Vec<Case> {
     let q = tier == Tier::Quick;
     let mut v = vec![
-        Case { fsync_fault: false, mmap_fault: false, writers: 1, readers: 1, liveness: true, num_pages: 4, bound: if q { 4 } else { 8 } },
-        Case { fsync_fault: false, mmap_fault: false, writers: 1, readers: 1, liveness: true, num_pages: 64, bound: if q { 4 } else { 8 } },
-        Case { fsync_fault: false, mmap_fault: false, writers: 2, readers: 1, liveness: false, num_pages: 4, bound: if q { 2 } else { 3 } },
-        Case { fsync_fault: false, mmap_fault: false, writers: 3, readers: 0, liveness: false, num_pages: 4, bound: if q { 1 } else { 2 } },
-        Case { fsync_fault: false, mmap_fault: false, writers: 2, readers: 0, liveness: false, num_pages: 64, bound: if q { 3 } else { 4 } },
+        Case { big_value: false, fsync_fault: false, mmap_fault: false, writers: 1, readers: 1, liveness: true, num_pages: 4, bound: if q { 4 } else { 8 } },
+        Case { big_value: false, fsync_fault: false, mmap_fault: false, writers: 1, readers: 1, liveness: true, num_pages: 64, bound: if q { 4 } else { 8 } },
+        Case { big_value: false, fsync_fault: false, mmap_fault: false, writers: 2, readers: 1, liveness: false, num_pages: 4, bound: if q { 2 } else { 3 } },
+        Case { big_value: false, fsync_fault: false, mmap_fault: false, writers: 3, readers: 0, liveness: false, num_pages: 4, bound: if q { 1 } else { 2 } },
+        Case { big_value: false, fsync_fault: false, mmap_fault: false, writers: 2, readers: 0, liveness: false, num_pages: 64, bound: if q { 3 } else { 4 } },
     ];
-    v.push(Case { fsync_fault: false, mmap_fault: true, writers: 1, readers: 2, liveness: false, num_pages: 4, bound: if q { 2 } else { 3 } });
-    v.push(Case { fsync_fault: false, mmap_fault: true, writers: 2, readers: 1, liveness: false, num_pages: 4, bound: if q { 1 } else { 2 } });
-    v.push(Case { fsync_fault: true, mmap_fault: false, writers: 1, readers: 2, liveness: false, num_pages: 64, bound: if q { 2 } else { 3 } });
-    v.push(Case { fsync_fault: true, mmap_fault: false, writers: 2, readers: 1, liveness: false, num_pages: 64, bound: if q { 1 } else { 2 } });
+    v.push(Case { big_value: false, fsync_fault: false, mmap_fault: true, writers: 1, readers: 2, liveness: false, num_pages: 4, bound: if q { 2 } else { 3 } });
+    v.push(Case { big_value: false, fsync_fault: false, mmap_fault: true, writers: 2, readers: 1, liveness: false, num_pages: 4, bound: if q { 1 } else { 2 } });
+    v.push(Case { big_value: false, fsync_fault: true, mmap_fault: false, writers: 1, readers: 2, liveness: false, num_pages: 64, bound: if q { 2 } else { 3 } });
+    v.push(Case { big_value: false, fsync_fault: true, mmap_fault: false, writers: 2, readers: 1, liveness: false, num_pages: 64, bound: if q { 1 } else { 2 } });
+    v.push(Case { big_value: true, fsync_fault: false, mmap_fault: false, writers: 2, readers: 1, liveness: false, num_pages: 4, bound: if q { 0 } else { 1 } });
     if !q {
-        v.push(Case { fsync_fault: false, mmap_fault: false, writers: 3, readers: 1, liveness: false, num_pages: 4, bound: 2 });
-        v.push(Case { fsync_fault: false, mmap_fault: false, writers: 2, readers: 2, liveness: false, num_pages: 4, bound: 2 });
-        v.push(Case { fsync_fault: false, mmap_fault: false, writers: 3, readers: 2, liveness: false, num_pages: 4, bound: 1 });
+        v.push(Case { big_value: false, fsync_fault: false, mmap_fault: false, writers: 3, readers: 1, liveness: false, num_pages: 4, bound: 2 });
+        v.push(Case { big_value: false, fsync_fault: false, mmap_fault: false, writers: 2, readers: 2, liveness: false, num_pages: 4, bound: 2 });
+        v.push(Case { big_value: false, fsync_fault: false, mmap_fault: false, writers: 3, readers: 2, liveness: false, num_pages: 4, bound: 1 });
     } else {
-        v.push(Case { fsync_fault: false, mmap_fault: false, writers: 2, readers: 2, liveness: false, num_pages: 4, bound: 1 });
+        v.push(Case { big_value: false, fsync_fault: false, mmap_fault: false, writers: 2, readers: 2, liveness: false, num_pages: 4, bound: 1 });
     }
     v
 }
@@ -55,7 +58,7 @@ pub fn case_infos(tier: Tier) -> Vec<CaseInfo> {
     cases(tier)
         .iter()
         .map(|c| CaseInfo {
-            label: format!("{}w{}r{}{}-pages{}-c{}", c.writers, c.readers, if c.liveness { "-liveness" } else { "" }, if c.mmap_fault { "-mmapfault" } else if c.fsync_fault { "-finalsyncfault" } else { "" }, c.num_pages, c.bound),
+            label: format!("{}w{}r{}{}-pages{}-c{}", c.writers, c.readers, if c.liveness { "-liveness" } else { "" }, if c.big_value { "-20MiB-value" } else if c.mmap_fault { "-mmapfault" } else if c.fsync_fault { "-finalsyncfault" } else { "" }, c.num_pages, c.bound),
             describe: json!({"writers": c.writers, "readers": c.readers, "writer_body": if c.liveness { "begin; put; await(reader finished); commit" } else { "begin; v = get(n); yield; put(n, v+1); yield; commit" }, "reader_body": if c.liveness { "begin; dump; drop; signal" } else { "begin; dump; yield; dump; drop" }, "initial_pages": c.num_pages, "preemption_bound": c.bound}),
         })
         .collect()
@@ -126,6 +129,7 @@ pub fn run_one(case: &Case, path: &str, prefix: &[u8], policy: RwPolicy) -> (Exe
         let liveness = case.liveness;
         let mmap_fault = case.mmap_fault && w == 0;
         let fsync_fault = case.fsync_fault && w == 0;
+        let big_value = case.big_value && w == 0;
         bodies.push(Box::new(move |ctx: &Ctx| {
             if mmap_fault || fsync_fault {
                 // a commit that has to grow the file and whose mmap fails: it must report the error,
@@ -192,6 +196,9 @@ pub fn run_one(case: &Case, path: &str, prefix: &[u8], policy: RwPolicy) -> (Exe
                 let b = tx.get_or_create_bucket("ctr").map_err(|e| format!("{:?}", e))?;
                 b.put("n", format!("{}", v + 1)).map_err(|e| format!("{:?}", e))?;
                 b.put(format!("pad{}", w), "x".repeat(300)).map_err(|e| format!("{:?}", e))?;
+                if big_value {
+                    b.put("big", vec![9u8; 20 << 20]).map_err(|e| format!("{:?}", e))?;
+                }
                 if with_data {
                     let d = tx.get_bucket("data").map_err(|e| format!("{:?}", e))?;
                     d.put(format!("k{}", w), format!("{}", w).repeat(310)).map_err(|e| format!("{:?}", e))?;
